@@ -552,6 +552,7 @@ func c04API(c *Ctx) {
 			if c.Rng.Intn(4) == 0 {
 				data = gz(data) // raw data that happens to be gzip bytes
 			}
+			orig := append([]byte(nil), data...) // the handler keeps serving the same slice (a cached asset)
 			bct := []string{"image/png", "text/plain; charset=utf-8", "application/json", "application/x-custom", ""}[c.Rng.Intn(5)]
 			hb := fx.NewMsg("google.api.HttpBody")
 			hb.Set(hb.Descriptor().Fields().ByName("content_type"), protoreflect.ValueOfString(bct))
@@ -581,9 +582,17 @@ func c04API(c *Ctx) {
 					raw, _ = gunzip(raw)
 				}
 				gotCT := rec.Header().Get("Content-Type")
-				if rec.Code != 200 || !bytes.Equal(raw, data) || gotCT != bct {
-					c.SpecFail("api-httpbody", via+" "+in, fmt.Sprintf("%d ct=%q %d bytes", rec.Code, gotCT, len(raw)), fmt.Sprintf("ct=%q %d bytes", bct, len(data)), "C04/api/httpbody-passthrough", "HttpBody reply is not delivered as its raw bytes under its own content type")
+				if rec.Code != 200 || !bytes.Equal(raw, orig) || gotCT != bct {
+					c.SpecFail("api-httpbody", via+" "+in, fmt.Sprintf("%d ct=%q %d bytes %x", rec.Code, gotCT, len(raw), trunc(raw, 24)), fmt.Sprintf("ct=%q %d bytes %x", bct, len(orig), trunc(orig, 24)), "C04/api/httpbody-passthrough", "HttpBody reply is not delivered as its raw bytes under its own content type")
 				}
+				// a JSON reply in between uses the mux's scratch buffers
+				rp2 := fx.NewMsg("Reply")
+				rp2.Set(rp2.Descriptor().Fields().ByName("text"), protoreflect.ValueOfString("an in-between reply, marshalled in the mux's scratch buffer"))
+				reply = rp2
+				fx.Serve(httptest.NewRequest("POST", "/c04/post", strings.NewReader(`{"name":"an in-between request body, read into the mux's scratch buffer"}`))) //nolint
+			}
+			if !bytes.Equal(data, orig) {
+				c.SpecFail("api-httpbody", "the handler's HttpBody.data slice after it was served: "+in, fmt.Sprintf("%x", trunc(data, 24)), fmt.Sprintf("%x", trunc(orig, 24)), "C04/api/httpbody-reply-bytes-modified", "the bytes of the handler's reply were modified by the mux: the next reply served from them is not the handler's reply")
 			}
 		}
 	}
